@@ -26,6 +26,8 @@ Every place where the C++ calls a member through, or dereferences, a pointer it 
 * `castSimple`          — `dynamic_cast< MultList * >( child )->matchORs` on a `SimpleList` whose viable is UNKNOWN;
 * `emptyList`           — `childList->firstNot(…)`/`firstWanted(…)`/`getLast()` of a list without children;
 * `badHead`             — `ComplexList` head that is not `AND(SimpleList, …)` (`supertype()`, `toplevel()` cast blindly);
+* `sortNullChunk`       — `EntNode::sort`: `eptr2->next` when `lastSmaller` answered NULL for the chunk to move
+                          (reachable only with equal names, i.e. after renaming; see `ComplexInit.lean`);
 * `comboEmpty`/`comboOdd` — `supports`: the combo list for members with several supertypes is empty (`buildList`
                           reads `head->childList->next`) or has an odd number of children (the unlink loop).
 
@@ -38,6 +40,7 @@ open StepModel.Generated StepModel.Complex
 
 inductive Crash
   | firstCandidateNull | unmarkPastEnd | orChoiceNull | castSimple | emptyList | badHead | comboEmpty | comboOdd
+  | sortNullChunk
   deriving DecidableEq, Repr
 
 inductive Outcome (α : Type) where
